@@ -95,6 +95,39 @@ func rawPred(g *sqlgen.Gen, s sqlgen.Scopes, depth int) *Expr {
 	return g.BoolExprNoSubq(s, 1)
 }
 
+// narrowPred: a narrow integer column compared with a constant at or just outside its type's range
+// (the index builder clamps such keys), bare, negated or combined with another predicate.
+func narrowPred(g *sqlgen.Gen, cols []sqlgen.ColInfo, sc sqlgen.Scopes) *Expr {
+	var idx []int
+	for i, c := range cols {
+		if c.Phys != "" {
+			idx = append(idx, i)
+		}
+	}
+	if len(idx) == 0 {
+		return nil
+	}
+	i := idx[g.R.Intn(len(idx))]
+	edge := map[string][]int{"TINYINT": {127, 128, -128, -129, 126, 200, -200, 1000}, "SMALLINT": {32767, 32768, -32768, -32769, 40000, -40000}}[cols[i].Phys]
+	k := Lit(Int(edge[g.R.Intn(len(edge))]))
+	c := Col(0, i+1, "none")
+	ops := []string{"eq", "ne", "lt", "le", "gt", "ge", "nseq"}
+	op := ops[g.R.Intn(len(ops))]
+	p := Op(op, c, k)
+	if g.R.Intn(3) == 0 {
+		p = Op(op, k, c)
+	}
+	switch g.R.Intn(5) {
+	case 0:
+		p = Op("not", p)
+	case 1:
+		p = Op("and", p, g.BoolExprNoSubq(sc, 1))
+	case 2:
+		p = Op("or", p, g.BoolExprNoSubq(sc, 1))
+	}
+	return p
+}
+
 func starProj(cols []sqlgen.ColInfo) []*Expr {
 	out := make([]*Expr, len(cols))
 	for i, c := range cols {
@@ -110,6 +143,7 @@ func (r *runner) genC05(seed int64, ndb, nq, depth int, only onlySet) {
 	for d := 0; d < ndb; d++ {
 		g := sqlgen.New(seed*1000003 + int64(d))
 		g.AllowMod = true
+		g.NarrowInts = d%2 == 1
 		tabs := g.Schema(2 + g.R.Intn(2))
 		var s *eng.Session
 		for k := 0; k < nq; k++ {
@@ -136,6 +170,11 @@ func (r *runner) genC05(seed int64, ndb, nq, depth int, only onlySet) {
 				p = g.BoolExpr(sc, depth)
 			} else {
 				p = rawPred(g, sc, depth)
+			}
+			if g.NarrowInts && g.R.Intn(3) == 0 {
+				if np := narrowPred(g, cols, sc); np != nil {
+					p = np
+				}
 			}
 			if only.skip(id) {
 				continue
